@@ -1,3 +1,131 @@
+(* C14 — policy roll-outs are valid trajectories and Monte-Carlo evaluation averages them.
+   Statements only; proofs in theory/RolloutTheory.v, definitions in model/Rollout.v.
+   Every theorem is for ALL MDPs/POMDPs (fmdp/fpomdp: arbitrary functions to distributions), ALL
+   policies, start states, step caps, numbers of simulations and ALL generators (streams of
+   random() values in [0,1)).  Non-vacuity: RolloutTheory.Examples. *)
+From Coq Require Import QArith ZArith List Bool.
 From MSDM Require Import model.Rollout theory.RolloutTheory.
-Theorem c14_placeholder : True. Proof. exact I. Qed.
-Print Assumptions c14_placeholder.
+Import ListNotations.
+Local Open Scope Q_scope.
+
+(* every draw yields an event of positive probability (CPython choices/choice rule) *)
+Theorem sample_positive : forall d st,
+  wf_dist d -> good_stream st ->
+  0 < dweight d (fst (sample d st)) /\ good_stream (snd (sample d st)).
+Proof. exact RolloutTheory.sample_pos. Qed.
+Print Assumptions sample_positive.
+
+(* Policy.run_on: starts at the given / a positive-probability initial state; each step is taken from a
+   non-absorbing state with an action the policy gives positive probability, a successor of positive
+   probability and the model's reward; consecutive steps chain; the final state is where the last step ended *)
+Theorem rollout_valid : forall m pi, wf_setting m pi -> wf_dist (f_init m) ->
+  forall s0 cap st tr fin st',
+  good_stream st -> run_on m pi s0 cap st = (tr, fin, st') ->
+  exists s, start_ok m s0 s /\ chain_ok m pi s tr fin /\ good_stream st'.
+Proof. exact RolloutTheory.rollout_valid. Qed.
+Print Assumptions rollout_valid.
+
+(* the roll-out stops exactly at the first absorbing state or at the step cap:
+   #steps = min(cap, index of the first absorbing state), #entries = that + 1, no step from an absorbing state *)
+Theorem rollout_stops : forall m pi, wf_setting m pi -> wf_dist (f_init m) ->
+  forall s0 cap st tr fin st',
+  good_stream st -> run_on m pi s0 cap st = (tr, fin, st') ->
+  Forall (fun x => f_abs m (st_s x) = false) tr /\
+  (length tr <= cap)%nat /\
+  ((length tr < cap)%nat -> f_abs m fin = true) /\
+  length tr = Nat.min cap (first_abs m (t_states (tr, fin))) /\
+  length (t_states (tr, fin)) = S (Nat.min cap (first_abs m (t_states (tr, fin)))).
+Proof. exact RolloutTheory.rollout_stops. Qed.
+Print Assumptions rollout_stops.
+
+Theorem cap_zero : forall m pi s0 st tr fin st',
+  run_on m pi s0 0 st = (tr, fin, st') ->
+  tr = [] /\ fin = fst (match s0 with Some s => (s, st) | None => sample (f_init m) st end) /\
+  t_states (tr, fin) = [fin] /\ t_rewards (tr, fin) = [0] /\ t_actions (tr, fin) = [None].
+Proof. exact RolloutTheory.cap_zero. Qed.
+Print Assumptions cap_zero.
+
+(* a run that stopped before the cap is the run for every larger cap *)
+Theorem run_cap_stable : forall m pi c s st tr fin st',
+  run_from m pi c s st = (tr, fin, st') -> (length tr < c)%nat ->
+  forall c', (c <= c')%nat -> run_from m pi c' s st = (tr, fin, st').
+Proof. exact RolloutTheory.run_cap_stable. Qed.
+Print Assumptions run_cap_stable.
+
+(* POMDPPolicy.run_on: as above plus observations of positive probability and agent states that follow the
+   policy's own update; holds whichever generator serves the initial state (flag) *)
+Theorem prollout_valid : forall (AG : Type) (m : fpomdp) (pol : ppolicy AG),
+  pwf_setting m pol -> wf_dist (f_init (fp_mdp m)) ->
+  forall flag s0 ag0 cap gst st tr fin st' gst',
+  good_stream st -> good_stream gst ->
+  prun_on flag m pol s0 ag0 cap gst st = (tr, fin, st', gst') ->
+  exists s,
+    match s0 with Some s' => s = s' | None => 0 < dweight (f_init (fp_mdp m)) s end /\
+    pchain_ok m pol s (match ag0 with Some a => a | None => pp_init pol end) tr fin /\
+    Forall (fun x => f_abs (fp_mdp m) (ps_s x) = false) tr /\
+    (length tr <= cap)%nat /\ ((length tr < cap)%nat -> f_abs (fp_mdp m) (fst fin) = true).
+Proof. exact (@RolloutTheory.prollout_valid). Qed.
+Print Assumptions prollout_valid.
+
+(* Policy.calc_returns (triu(g^(j-i)) @ r) is the backward recursion *)
+Theorem calc_returns_rec : forall rs g,
+  length (calc_returns rs g) = length rs /\
+  (forall i, (S i < length rs)%nat ->
+     nth i (calc_returns rs g) 0 == nth i rs 0 + g * nth (S i) (calc_returns rs g) 0) /\
+  (forall i, length rs = S i -> nth i (calc_returns rs g) 0 == nth i rs 0).
+Proof. exact RolloutTheory.calc_returns_rec. Qed.
+Print Assumptions calc_returns_rec.
+
+(* Policy.evaluate_on: the tables are built from n valid roll-outs of its own ... *)
+Theorem mc_evaluate_averages : forall m pi, wf_setting m pi -> wf_dist (f_init m) ->
+  forall cap n st, good_stream st ->
+  exists ts, length ts = n /\ Forall (valid_rollout m pi cap) ts /\
+             ts = fst (sims m pi cap n st) /\
+             mc_evaluate m pi cap n st = mc_tables (f_gamma m) n ts.
+Proof. exact RolloutTheory.mc_evaluate_averages. Qed.
+Print Assumptions mc_evaluate_averages.
+
+(* ... and every reported number is the arithmetic mean of the stated samples of those roll-outs *)
+Theorem mc_tables_averages : forall g n ts,
+  let R := mc_tables g n ts in
+  NoDup (map fst (mc_state_value R)) /\
+  (forall s, In s (map fst (mc_state_value R)) <-> In s (map (fun v => fst (snd v)) (visits g ts))) /\
+  (forall s v, In (s, v) (mc_state_value R) -> v = mean (returns_at g ts s) /\ returns_at g ts s <> []) /\
+  map fst (mc_occupancy R) = map fst (mc_state_value R) /\
+  (forall s o, In (s, o) (mc_occupancy R) -> o = qlen (returns_at g ts s) / inject_Z (Z.of_nat n)) /\
+  NoDup (map fst (mc_action_value R)) /\
+  (forall sa, In sa (map fst (mc_action_value R)) <-> In sa (map snd (visits g ts))) /\
+  (forall sa v, In (sa, v) (mc_action_value R) -> v = mean (returns_at_sa g ts sa) /\ returns_at_sa g ts sa <> []) /\
+  mc_initial_value R = mean (map (fun t => hd 0 (calc_returns (t_rewards t) g)) ts).
+Proof. exact RolloutTheory.mc_tables_averages. Qed.
+Print Assumptions mc_tables_averages.
+
+(* deterministic policy on a deterministic MDP: each roll-out's return, and hence the reported initial
+   value, is the exact evaluation truncated at the step cap — for every generator and every n > 0 *)
+Theorem det_rollout_exact : forall m pi,
+  (forall s, f_abs m s = false -> exists a, is_det (pi s) a) ->
+  (forall s a, f_abs m s = false -> exists ns, is_det (f_next m s a) ns) ->
+  forall cap s st tr fin st',
+  good_stream st -> run_from m pi cap s st = (tr, fin, st') ->
+  hd 0 (calc_returns (t_rewards (tr, fin)) (f_gamma m)) == Vn m pi cap s /\ good_stream st'.
+Proof. exact RolloutTheory.det_run_from. Qed.
+Print Assumptions det_rollout_exact.
+
+Theorem mc_deterministic_exact : forall m pi,
+  (forall s, f_abs m s = false -> exists a, is_det (pi s) a) ->
+  (forall s a, f_abs m s = false -> exists ns, is_det (f_next m s a) ns) ->
+  forall s0, is_det (f_init m) s0 ->
+  forall cap n st, good_stream st -> (0 < n)%nat ->
+  mc_initial_value (mc_evaluate m pi cap n st) == Vn m pi cap s0.
+Proof. exact RolloutTheory.mc_deterministic_exact. Qed.
+Print Assumptions mc_deterministic_exact.
+
+Theorem det_rollout_same : forall m pi,
+  (forall s, f_abs m s = false -> exists a, is_det (pi s) a) ->
+  (forall s a, f_abs m s = false -> exists ns, is_det (f_next m s a) ns) ->
+  forall cap s st st2 tr fin st' tr2 fin2 st2',
+  good_stream st -> good_stream st2 ->
+  run_from m pi cap s st = (tr, fin, st') -> run_from m pi cap s st2 = (tr2, fin2, st2') ->
+  tr = tr2 /\ fin = fin2.
+Proof. exact RolloutTheory.det_run_same. Qed.
+Print Assumptions det_rollout_same.
